@@ -142,3 +142,37 @@ Fixpoint all_obs_ok (strict : bool) (maxttl : Z) (rh : list op) (h : list op) (r
 
 (* Stop was observed to return, and the cleaner goroutine had exited by then. *)
 Definition stop_ok (returned cleaner_exited : bool) : bool := returned && cleaner_exited.
+
+(* ------------------------------------------------------------------------------------- *)
+(* The same demands, declaratively, for whole observations (what the oracles above decide:
+   ProofsOracle.v proves [all_obs_ok ... = true <-> trace_spec ...]).                        *)
+
+(* What the property text demands of ONE observed result [r] of operation [o] issued after the
+   chronological history [a]:
+     Set    accepted (returns) iff its TTL is positive, refused (panics) otherwise;
+     Get    a hit with v must be justified by [a] ("the one most recently Set ... not deleted or
+            reset since ... strictly less than its TTL has elapsed"); in strict (sequential) mode
+            a miss must be unjustifiable ("otherwise it reports a miss") - int64 corner aside;
+     Keys   (strict mode) every key that Get must still answer is stored ("Cleanup ... never makes
+            a live entry ... disappear"; sequentially nothing else may have removed it either);
+     Delete, Cleanup, Reset, Advance, Stop return normally. *)
+Definition res_spec (strict : bool) (maxttl : Z) (a : list op) (o : op) (r : res) : Prop :=
+  match o, r with
+  | OSet _ _ ttl, RUnit => 0 < ttl
+  | OSet _ _ ttl, RPanic => ttl <= 0
+  | OGet k, RGet (Some v) => justified maxttl a k v
+  | OGet k, RGet None =>
+      strict = true ->
+      (forall v, ~ justified maxttl a k v) \/ last_set_fits maxttl (rev a) k = false
+  | OKeys, RKeys ks =>
+      strict = true ->
+      forall k v, justified maxttl a k v -> In k ks \/ last_set_fits maxttl (rev a) k = false
+  | ODelete _, RUnit | OCleanup, RUnit | OReset, RUnit | OAdvance _, RUnit | OStop, RUnit => True
+  | _, _ => False
+  end.
+
+(* ... and of a whole observed trace: one result per operation, each one as demanded after the
+   operations that precede it. *)
+Definition trace_spec (strict : bool) (maxttl : Z) (h : list op) (rs : list res) : Prop :=
+  length h = length rs /\
+  forall a o b r, h = a ++ o :: b -> nth_error rs (length a) = Some r -> res_spec strict maxttl a o r.
